@@ -14,4 +14,7 @@ fi
 if [ "$TIER" = "--replay" ]; then
   exec bin/cctpcheck -repo "$REPO" -prop "$ID" -tier quick -evidence "$HERE/evidence" -replaydir "$HERE/replay" -known "$HERE/known_findings.json" -replay "$3"
 fi
+if [ "$TIER" = "thorough" ]; then
+  exec python3 tools/thorough.py "$ID"
+fi
 exec bin/cctpcheck -repo "$REPO" -prop "$ID" -tier "$TIER" -evidence "$HERE/evidence" -replaydir "$HERE/replay" -known "$HERE/known_findings.json"
